@@ -3,6 +3,7 @@
 From Coq Require Import List ZArith QArith Qcanon Lia Bool.
 From Inovesa Require Import Base.FieldKit Base.Sums Base.Float32 Gen.Gen_Coeffs Model.Kick
   Proofs.WeightsP Proofs.KickP Proofs.KickGridP.
+Import ListNotations.
 Local Open Scope Z_scope.
 
 Theorem C01_weights_unity :
@@ -60,6 +61,70 @@ Proof.
   destruct ((2 <=? i) && (i <? 6))%bool eqn:U; [|reflexivity].
   apply Bool.andb_true_iff in U. destruct U as [U1 U2]. apply Z.leb_le in U1. apply Z.ltb_lt in U2. lia.
 Qed.
+
+(** ** the same about the GENERATED body of KickMap::updateSM (family usm).  Gen/Gen_UpdateSM.v is regenerated from
+    src/SM/KickMap.cpp on every run (translate/updatesm2coq.py: symbolic execution of one iteration of the loop over
+    [_offset] with the C++ arithmetic as it is - the size halved in unsigned arithmetic and converted to float, the
+    binary32 sum, std::modf, the guard on the float integer part, the float -> unsigned conversion, the unsigned source
+    index [jd + j1 - (it-1)/2] before wrap-around, the range test, the entry of each branch, the slot, the loops).
+    [usm_entry n it o j1] is the entry that code writes for offset [o] and stencil point [j1]; [usm_gen_table n it size offs]
+    the table [_hinfo] after the generated loops ran over an offset vector of [size] entries.  The bound n < 2^24 is where
+    the int -> float conversions of the source are exact; nb*n*it <= 2^32 keeps the table subscript inside [meshindex_t].
+    A changed centre, bound, fallback entry, guard, halving or slot breaks these theorems (Proofs/UpdateSMGenP.v). *)
+From Inovesa Require Import Model.UsmOps Gen.Gen_UpdateSM Proofs.UpdateSMGenP.
+
+Theorem C01_updateSM_generated_is_model :
+  forall n it o j1,
+    valid_it it -> 0 < n < 2 ^ 24 -> 0 <= j1 < it -> usm_entry n it o j1 = sm_entry n it o j1.
+Proof. exact usm_entry_model. Qed.
+Print Assumptions C01_updateSM_generated_is_model.
+
+Theorem C01_updateSM_generated_table :
+  forall n it size offs k,
+    valid_it it -> 0 < n < 2 ^ 24 -> 0 <= size -> size * it <= 2 ^ 32 -> 0 <= k < size * it ->
+    usm_gen_table n it size offs k = updateSM n it offs k.
+Proof. exact usm_gen_table_spec. Qed.
+Print Assumptions C01_updateSM_generated_table.
+
+Theorem C01_row_kick_conserves_generated :
+  forall n it o (r : Z -> Qc),
+    valid_it it -> 0 < n < 2 ^ 24 -> row_ok n it o r ->
+    sumQ 0 (Z.to_nat n) (row_out n it (usm_entry n it o) r) = sumQ 0 (Z.to_nat n) r.
+Proof. exact gen_row_conserves. Qed.
+Print Assumptions C01_row_kick_conserves_generated.
+
+Theorem C01_y_kick_conserves_generated :
+  forall n nb it (offs D : Z -> Qc),
+    valid_it it -> 0 < n < 2 ^ 24 -> 0 < nb -> nb * n * it <= 2 ^ 32 ->
+    (forall b x, 0 <= b < nb -> 0 <= x < n ->
+       row_ok n it (offs (Z.min b (nb - 1) * n + x)) (rtrunc n (fun y => D (didx n b x y)))) ->
+    sumQ 0 (Z.to_nat (nb * n * n)) (apply_y n nb it (usm_gen_table n it (nb * n) offs) D) =
+    sumQ 0 (Z.to_nat (nb * n * n)) D.
+Proof. exact gen_kick_y_conserves. Qed.
+Print Assumptions C01_y_kick_conserves_generated.
+
+Theorem C01_x_kick_conserves_generated :
+  forall n nb it (offs D : Z -> Qc),
+    valid_it it -> 0 < n < 2 ^ 24 -> 0 < nb -> nb * n * it <= 2 ^ 32 ->
+    (forall b y, 0 <= b < nb -> 0 <= y < n ->
+       row_ok n it (offs y) (rtrunc n (fun x => D (didx n b x y)))) ->
+    sumQ 0 (Z.to_nat (nb * n * n)) (apply_x n nb it (usm_gen_table n it (nb * n) offs) D) =
+    sumQ 0 (Z.to_nat (nb * n * n)) D.
+Proof. exact gen_kick_x_conserves. Qed.
+Print Assumptions C01_x_kick_conserves_generated.
+
+(** non-vacuity: the generated code run on concrete offsets (n = 8, cubic): an interior fractional offset, the
+    stencil leaving the table range at the top, an offset outside the guard; the generated table of a two-entry
+    offset vector *)
+Example C01_updateSM_generated_example :
+  let show := fun e : Z * Qc => (fst e, this (snd e)) in
+  (map (fun j => fst (usm_entry 8 4 (Q2Qc (3 # 8)) j)) (zrange 4) = [3; 4; 5; 6]) /\
+  (this (qsum (map (fun j => snd (usm_entry 8 4 (Q2Qc (3 # 8)) j)) (zrange 4))) = 1%Q) /\
+  (map (fun j => show (usm_entry 8 4 (Q2Qc (11 # 4)) j)) (zrange 4) =
+    [(5, (-5 # 128)%Q); (6, (35 # 128)%Q); (7, (105 # 128)%Q); (4, 0%Q)]) /\
+  (map (fun j => show (usm_entry 8 4 (Qcz (-6)) j)) (zrange 4) = [(4, 0%Q); (4, 0%Q); (4, 0%Q); (4, 0%Q)]) /\
+  (map (fun k => fst (usm_gen_table 8 2 2 (fun i => if i =? 0 then Qcz 1 else Qcz (-9)) k)) (zrange 5) = [5; 6; 4; 4; 0]).
+Proof. vm_compute. repeat split; reflexivity. Qed.
 
 (** ** Fokker-Planck step (damping/diffusion), model of FokkerPlanckMap (Model/FokkerPlanck.v),
     stencil arithmetic regenerated from the constructor on every run (Gen/Gen_FPStencil.v).
